@@ -178,6 +178,24 @@ class C19(Prop):
                         ctx.violate(f"dsp:sdft:{d}:{f}", f"sliding DFT<{'double' if d else 'float'}> bin {f} Hz after {n} samples of '{name}': |{abs(complex(re, im))!r}| vs direct DFT |{abs(direct)!r}|",
                                     {"stream": "sdft", "ops": [" ".join(ln.split()[:n + off + 1])]})
                         break
+        # the single-bin class SlidingDFT<F, 48000, 3200, 400> (N = 120, bin 8, damping factor 1 - 1e-15: far below the tolerance) against the direct DFT
+        s1 = [(name, d, xs[:1500], f"sdft1 {d} " + " ".join(map(str, xs[:1500]))) for name, xs in seqs if 999999 not in xs for d in (0, 1)]
+        out1 = ctx.run_impl(exe, [x[3] for x in s1], "sdft1")
+        for (name, d, xs, ln), o in zip(s1, out1):
+            v = o.split()
+            if len(v) != 2 * len(xs):
+                continue
+            ctx.count(ln, nontrivial=True)
+            ctx.stat("sdft1:runs")
+            for n in range(130, len(xs), 97):
+                re = f_of_bits(int(v[2 * n]), 1); im = f_of_bits(int(v[2 * n + 1]), 1)
+                direct = sum((xs[n - m] / 4096) * cmath.exp(-2j * math.pi * 3200 * (119 - m) / 48000) for m in range(120))
+                tol = (1e-9 if d else 2e-3) * (1 + n / 100) + 1e-12
+                ctx.evaluations += 1
+                if abs(abs(complex(re, im)) - abs(direct)) > tol * max(1.0, abs(direct)):
+                    ctx.violate(f"dsp:sdft1:{d}", f"SlidingDFT<{'double' if d else 'float'},48000,3200,400> after {n} samples of '{name}': |{abs(complex(re, im))!r}| vs direct DFT |{abs(direct)!r}|",
+                                {"stream": "sdft1", "ops": [" ".join(ln.split()[:n + 3])]})
+                    break
         # long bin-centred tones: the recursive DFT must not decay or drift away from the direct DFT of the latest window (float and double)
         nlong = 120000 if quick else 1000000
         for f in (2400, 3600):
